@@ -5233,10 +5233,15 @@ func checkValue(
 			rootError := r
 			for {
 				switch err := r.(type) {
-				case errors.UserError, errors.ExternalError:
+				case errors.UserError:
 					valueError = err.(error)
 					return
 				case xerrors.Wrapper:
+					// NOTE: external errors are not tolerated:
+					// A failure of the embedder (e.g. failing to load a program) must not be ignored.
+					// External errors are only unwrapped here,
+					// as a user error (e.g. a parsing/checking error of a broken program)
+					// might have been wrapped by the embedder when loading the program.
 					r = err.Unwrap()
 				default:
 					panic(rootError)
